@@ -281,6 +281,15 @@ def run(prog: Program, chk: Check):
         dstores = [n for n in walk_local(sf.node) if isinstance(n, ast.Assign) for t in n.targets if isinstance(t, ast.Attribute) and t.attr == "dest_mod_id" and path_of(t.value) == oh]
         okpub = pd == dv and len(tstores) == 1 and sres(tstores[0].value) == consts.get("MT_FAILED_MESSAGE") and \
             all(isinstance(n.value, ast.Constant) and n.value.value == 0 for n in dstores) and oh != shdr
+        # "to everyone": the notice's own header is a fresh one (destination fields 0) - a header started as a copy of the failed
+        # one inherits its dest_mod_id / dest_host_id unless both are reset, and the notice about a directed message then goes
+        # to that destination only
+        odefs = [n.value for n in walk_local(sf.node) if isinstance(n, ast.Assign) and any(path_of(t) == oh for t in n.targets)]
+        fresh = len(odefs) == 1 and isinstance(odefs[0], ast.Call) and not odefs[0].args and not odefs[0].keywords
+        if okpub and not fresh:
+            zeroed = {t.attr for n in walk_local(sf.node) if isinstance(n, ast.Assign) and isinstance(n.value, ast.Constant) and n.value.value == 0
+                      for t in n.targets if isinstance(t, ast.Attribute) and path_of(t.value) == oh}
+            okpub = {"dest_mod_id", "dest_host_id"} <= zeroed
     N.decide(okpub, fkey(sf, "published-as-failed-message"), where(sf), "published through forward_message as MT_FAILED_MESSAGE, destination 0, with the notice payload",
              "the notice is not published as MT_FAILED_MESSAGE/broadcast with the MDF_FAILED_MESSAGE payload on a fresh header")
     ts = [n for n in walk_local(sf.node) if isinstance(n, ast.Assign) for t in n.targets if isinstance(t, ast.Attribute) and t.attr == "num_data_bytes"]
